@@ -56,6 +56,12 @@ QuietWhy ==
 
 \* a notification that was never acknowledged after all its transmissions: the observation has failed
 Failed(m) == m.con /\ ~m.acked /\ m.copies >= maxrtx + 1
+\* ... the observation it was sent for: the entry still carries the token the notification went out under.  When the client has re-registered
+\* under another token in the meantime the statement does not say whether the NEW registration goes too (libcoap keeps it): left open
+Current(st, m) == m.key \in DOMAIN st.obs /\ st.obs[m.key].tok = m.tok
+FailedKeys(st) == {mids[pk].key : pk \in {x \in DOMAIN mids : Failed(mids[x]) /\ Current(st, mids[x])}}
+OpenKeys(st) == {mids[pk].key : pk \in {x \in DOMAIN mids : Failed(mids[x]) /\ ~Current(st, mids[x]) /\ mids[x].key \in DOMAIN st.obs}}
+AfterFailures(st) == [st EXCEPT !.obs = [k \in (DOMAIN st.obs) \ FailedKeys(st) |-> st.obs[k]], !.maybe = (@ \cup OpenKeys(st)) \ FailedKeys(st)]
 
 Init == /\ l = 1 /\ rej = << >> /\ cur = -1 /\ skip = TRUE /\ s = InitObs(0) /\ pendReq = EmptyFn /\ mids = EmptyFn /\ known = {}
         /\ nexec = 0 /\ rstate = EmptyFn /\ maxrtx = 4 /\ lastChange = 0 /\ errmode = EmptyFn
@@ -92,7 +98,7 @@ Consume ==
                /\ skip' = (r.why # "")
                /\ mids' = IF ~isNotif THEN mids
                           ELSE IF pk \in DOMAIN mids THEN [mids EXCEPT ![pk].copies = @ + 1]
-                          ELSE Put(mids, pk, [key |-> IF K = {} THEN <<-1, -1, "">> ELSE CHOOSE x \in K : TRUE, copies |-> 1, acked |-> FALSE, con |-> (e.ty = 0), val |-> e.obs])
+                          ELSE Put(mids, pk, [key |-> IF K = {} THEN <<-1, -1, "">> ELSE CHOOSE x \in K : TRUE, copies |-> 1, acked |-> FALSE, con |-> (e.ty = 0), val |-> e.obs, tok |-> e.tok])
                /\ known' = IF r.kf = "" THEN known ELSE known \cup {r.kf}
                /\ UNCHANGED <<cur, pendReq, nexec, rstate, maxrtx, lastChange, errmode>>
        [] e.e = "AckSent" /\ ~skip ->
@@ -110,14 +116,12 @@ Consume ==
                /\ UNCHANGED <<rej, cur, skip, pendReq, mids, nexec, rstate, maxrtx, lastChange, errmode>>
        [] e.e = "Ran" /\ ~skip ->
             \* observations whose Confirmable notification exhausted its retransmissions unanswered have failed
-            LET F == {mids[pk].key : pk \in {x \in DOMAIN mids : Failed(mids[x])}} IN
-            /\ s' = [s EXCEPT !.obs = [k \in (DOMAIN s.obs) \ F |-> s.obs[k]]]
+            /\ s' = AfterFailures(s)
             /\ mids' = [pk \in {x \in DOMAIN mids : ~Failed(mids[x])} |-> mids[pk]]
             /\ UNCHANGED <<rej, cur, skip, pendReq, known, nexec, rstate, maxrtx, lastChange, errmode>>
        [] e.e = "Quiet" /\ ~skip ->
-            LET F == {mids[pk].key : pk \in {x \in DOMAIN mids : Failed(mids[x])}}
-                s2 == [s EXCEPT !.obs = [k \in (DOMAIN s.obs) \ F |-> s.obs[k]]]
-                w == IF \E k \in DOMAIN s2.obs : k[2] \in DOMAIN rstate /\ k[2] \notin DOMAIN errmode /\ s2.obs[k].state # rstate[k[2]]
+            LET s2 == AfterFailures(s)
+                w == IF \E k \in (DOMAIN s2.obs) \ s2.maybe : k[2] \in DOMAIN rstate /\ k[2] \notin DOMAIN errmode /\ s2.obs[k].state # rstate[k[2]]
                      THEN "C11:last-state-never-notified-to-a-registered-observer" ELSE ""
             IN /\ rej' = IF w = "" THEN rej ELSE Append(rej, [id |-> cur, line |-> l, why |-> w])
                /\ UNCHANGED <<cur, skip, s, pendReq, mids, known, nexec, rstate, maxrtx, lastChange, errmode>>
